@@ -274,7 +274,11 @@ def apply_prop_filter(el, ab):
         matched = True
         for subel in el:
             if subel.tag == "{urn:ietf:params:xml:ns:carddav}text-match":
-                if not apply_text_match(subel, str(prop_el)):
+                # match the property's value, not the repr of the content line
+                value = prop_el.value
+                if not apply_text_match(
+                    subel, value if isinstance(value, str) else str(value)
+                ):
                     matched = False
                     break
             elif subel.tag == "{urn:ietf:params:xml:ns:carddav}param-filter":
